@@ -391,6 +391,16 @@ def t1(ctx):
     for opt in ("is_force_max_age", "taxon_label_age_map"):
         forwarding.obligations(ctx, opt, lambda mn: mn == TC, "age-setting-reaches[%s]" % opt, exact=False, native=native_sum_forgets_age_settings)
     from contracts import C05
+    # the two summary tables share one staleness counter: neither calc_* may stamp it (obligations of C05's cache protocol, which the
+    # add-then-summarise histories of this property depend on)
+    fr = C05.summary_calc_frames(ctx)
+    if fr:
+        w = C05.native_summary_tables_stale()
+        for name, bad in fr:
+            if w:
+                ctx.fail(name, dict(key="summary-tables|stale", sites=bad, outcome=w, replay_kind="summary-tables"), detail="%s (%s)" % (w, bad[0]), kind="T1")
+            else:
+                ctx.fail(name, dict(key="site:" + bad[0], sites=bad), detail="calc function assigns " + bad[0], kind="T1", no_input=True)
     for c in SD_UPDATE:
         verify_contract(ctx, SUITE, c, sentinels=False, replay=dreplay.replay_by_search(C05._states))
     lean.check_lemma(ctx, "Merge.lean", ["merge_order_irrelevant", "merge_partition_irrelevant", "merge_empty_block"],
@@ -471,6 +481,11 @@ def validate_constructor_natively(ctx):
 
 
 def replay(ctx, rec):
+    if rec.get("witness", {}).get("replay_kind") == "summary-tables" or "summary-tables" in str(rec.get("witness", {}).get("key", "")):
+        from contracts import C05
+        w = C05.native_summary_tables_stale()
+        print(w or "both summary tables describe the trees counted now on the probe")
+        return w is None
     if str(rec.get("obligation", "")).startswith("age-setting-reaches"):
         w = native_sum_forgets_age_settings()
         print(w or "a sum / a collection made from a list ages further trees under the operands' settings on the probe")
